@@ -5,6 +5,7 @@ import (
 	"fmt"
 	"io"
 	"net"
+	"runtime"
 	"sync"
 	"testing/synctest"
 	"time"
@@ -137,6 +138,10 @@ type SessSim struct {
 	OnSent func(d *Sent, from, to string, f *Fate) error
 	// OnDeliver observes a datagram just before it is put into the receiver's inbox.
 	OnDeliver func(to string, from net.Addr, data []byte)
+
+	// AfterEvent runs after every executed event once the bubble is quiescent
+	// again (only inside SleepTo / Drain).
+	AfterEvent func()
 
 	Datagrams, Dropped, Duplicated, Delivered int
 	TasksRun                                  int
@@ -296,6 +301,10 @@ func (s *SessSim) SleepTo(at int64) {
 		s.Quiesce()
 		if len(s.events) > 0 && s.events[0].at <= at {
 			s.Step(at)
+			if s.AfterEvent != nil {
+				s.Quiesce()
+				s.AfterEvent()
+			}
 			continue
 		}
 		break
@@ -339,4 +348,15 @@ func (s *SessSim) BlockedCalls() []*Call {
 		}
 	}
 	return out
+}
+
+// DumpGoroutines prints all goroutine stacks when VERIF_TRACE is set (used to
+// find what a leaking case left behind).
+func DumpGoroutines(tag string) {
+	if !traceOn {
+		return
+	}
+	buf := make([]byte, 1<<20)
+	n := runtime.Stack(buf, true)
+	fmt.Printf("==== goroutines at %s\n%s\n", tag, buf[:n])
 }
